@@ -69,6 +69,19 @@ var parseCtx = []struct{ pre, post string }{
 	{"\xef\xbb", "{namespace a}\n"}, // 57 two bytes of a byte order mark
 	{"\xef\xbb\xbf{namespace a}\n/** */\n{template .b}\n", "\n{/template}\n"}, // 58 valid file after a byte order mark
 	{"\xff\xfe", ""}, // 59 UTF-16 byte order mark
+	// attribute values (k = 0 gives the empty value), the rest of the tag follows
+	{vT + "{call name=", "/}\n{/template}\n"},                                            // 60
+	{vT + "{call name=\"", "\" /}\n{/template}\n"},                                       // 61
+	{vT + "{msg desc=", "}m{/msg}\n{/template}\n"},                                        // 62
+	{vT + "{msg meaning=\"", "\" desc=\"d\"}m{/msg}\n{/template}\n"},                      // 63
+	{"{namespace a autoescape=\"", "\"}\n"},                                               // 64
+	{"{namespace a}\n/** */\n{template .b autoescape=\"", "\"}\nx\n{/template}\n"},         // 65
+	{vT + "{call .t}{param k value=\"", "\"/}{/call}\n{/template}\n"},                    // 66
+	{vT + "{call .t data=\"", "\"/}\n{/template}\n"},                                     // 67
+	{"{namespace a}\n{alias ", "}\n"},                                                    // 68
+	{vT + "{call .t}{param ", ": 1/}{/call}\n{/template}\n"},                              // 69
+	{vT + "{let $x kind=\"", "\"}a{/let}\n{/template}\n"},                                 // 70
+	{vT + "{msg desc=\"\"}{plural $x}{case ", "}a{default}b{/plural}{/msg}\n{/template}\n"}, // 71
 }
 
 // exprCtx: the same for parse.Expr
@@ -191,4 +204,57 @@ func H_raceSelftest() {
 	l.drain()
 	verifRaceTrack(false)
 	verifObserveInt("n", n)
+}
+
+// H_selectSelftest: machinery self-test of the engine's select/close model. A producer hands over
+// n items through a select that also listens on a quit channel; the consumer takes k of them and
+// then closes quit. Whatever case the select picks, the consumer sees the first k items in order
+// and the producer exits (no goroutine left). mode 1 uses a non-blocking select with default.
+func H_selectSelftest(n, k, mode int) {
+	items, quit, done := make(chan int), make(chan struct{}), make(chan int)
+	go func() {
+		sent := 0
+		for i := 0; i < n; i++ {
+			if mode == 1 {
+				select {
+				case <-quit:
+					done <- sent
+					return
+				default:
+				}
+			}
+			select {
+			case items <- i:
+				sent++
+			case <-quit:
+				done <- sent
+				return
+			}
+		}
+		done <- sent
+	}()
+	for i := 0; i < k && i < n; i++ {
+		v := <-items
+		verifAssert(v == i, "selftest: items out of order")
+	}
+	close(quit)
+	sent := 0
+	if k >= n {
+		// the producer may have finished already or be about to see quit
+		sent = <-done
+		verifAssert(sent == n, "selftest: producer count")
+	} else {
+		// producer is blocked in the select (or about to enter it): it sends k or k+... no: it can
+		// only leave through quit, having sent exactly k items, unless the ready send wins first
+		select {
+		case v := <-items:
+			verifAssert(v == k, "selftest: late item")
+			sent = <-done
+			verifAssert(sent >= k+1, "selftest: producer count after late item")
+		case sent = <-done:
+			verifAssert(sent == k, "selftest: producer count")
+		}
+	}
+	verifObserveInt("sent", sent)
+	verifAssert(verifLiveGoroutines() == 0, "selftest: producer still alive")
 }
